@@ -153,8 +153,9 @@ func (o *MockOracle) IsExpired(lockTimestamp, TTL uint64, _ *oracle.Option) bool
 func (o *MockOracle) UntilExpired(lockTimeStamp, TTL uint64, _ *oracle.Option) int64 {
 	o.RLock()
 	defer o.RUnlock()
-	expire := oracle.GetTimeFromTS(lockTimeStamp).Add(time.Duration(TTL) * time.Millisecond)
-	return expire.Sub(time.Now().Add(o.offset)).Milliseconds()
+	// Computed on whole milliseconds like IsExpired decides: a lock with a fraction of a millisecond left is
+	// not expired yet and must report a positive remaining time (truncating the duration reported 0).
+	return oracle.ExtractPhysical(lockTimeStamp) + int64(TTL) - oracle.GetPhysical(time.Now().Add(o.offset))
 }
 
 // Close implements oracle.Oracle interface.
